@@ -447,6 +447,27 @@ def check_archives(ck, n, root):
                     ck.violation(f"C41/archive-v{version}/{field}", f"v{version} archive upgrade: {d}", dict(wit, difference=d))
             else:
                 ck.ok()
+            # ---- the legacy archive after an edit session that rewrites its metadata (here: the grid assigned to
+            # itself): it still declares its data version and must still load into the same structures
+            try:
+                with EKO.edit(dst) as e2:
+                    e2.xgrid = e2.xgrid
+                with EKO.read(dst) as e3:
+                    th3, op3, eps3 = e3.theory_card, e3.operator_card, sorted(e3)
+                    x3 = (np.array(e3.xgrid.raw), bool(e3.xgrid.log))
+                ck.hit("reread_after_edit")
+                op3c = copy.deepcopy(op3)
+                op3c.configs.n_integration_cores = 1
+                op3c.eko_version = ""
+                d3 = same(th1, th3, "theory") or same(op1c, op3c, "operator")
+                ck.case(json.dumps(dict(desc, history="edit-then-read"), sort_keys=True, default=str), nontrivial=nontrivial)
+                if d3 or eps3 != eps1 or not np.array_equal(x3[0], md1[1]) or x3[1] != md1[2]:
+                    ck.violation(f"C41/archive-v{version}/reread-after-edit/differs", f"v{version} archive re-read after an edit session differs from its first load: {d3 or 'evolution points / grid'}", dict(wit, difference=str(d3)))
+                else:
+                    ck.ok()
+            except Exception as e:
+                ck.case(json.dumps(dict(desc, history="edit-then-read"), sort_keys=True, default=str), nontrivial=nontrivial)
+                ck.violation(f"C41/archive-v{version}/reread-after-edit/{type(e).__name__}", f"a v{version} archive that loads fine cannot be loaded any more after an edit session rewrote its metadata: {type(e).__name__}: {str(e)[:150]}", wit)
             dst.unlink(missing_ok=True)
         src.unlink(missing_ok=True)
 
